@@ -76,10 +76,20 @@ Definition service_role (svc etype descr : string) : string :=
   else if String.eqb svc S_SSO then R_IDP
   else peer_role etype descr.
 
+(* round 7: a ResponseLocation counts only where the metadata schema gives it a meaning.  saml-metadata-2.0
+   2.4.3 / 2.4.4: ArtifactResolutionService, SingleSignOnService and NameIDMappingService elements MUST NOT carry a
+   ResponseLocation; a (schema-valid) stray one is not an endpoint "found in the target provider's metadata":
+   for these services only the Location is. *)
+Definition location_only (svc : string) : bool :=
+  String.eqb svc S_SSO || String.eqb svc S_ARS || String.eqb svc S_NIM.
+
+Definition pick_target (svc : string) (ep : endpoint) (d : string) : Prop :=
+  ep_location ep = d \/ (location_only svc = false /\ ep_resp ep = Some d).
+
 (* pick_binding called for an entity without a request: a published endpoint of the service *)
 Definition pick_spec (m : md) (svc typ eid : string) (out : outcome) : Prop :=
   match out with
-  | Dest b (Some d) => exists ep, publishes m eid typ svc ep /\ ep_binding ep = b /\ answer_target ep d
+  | Dest b (Some d) => exists ep, publishes m eid typ svc ep /\ ep_binding ep = b /\ pick_target svc ep d
   | Dest _ None => False
   | Fail _ => True
   | _ => False
@@ -183,10 +193,13 @@ Definition answer_spec_b (m : md) (etype : string) (req : request) (bindings : l
   | _ => false
   end.
 
+Definition pick_target_b (svc : string) (ep : endpoint) (d : string) : bool :=
+  String.eqb (ep_location ep) d || (negb (location_only svc) && opt_eqb String.eqb (ep_resp ep) (Some d)).
+
 Definition pick_spec_b (m : md) (svc typ eid : string) (out : outcome) : bool :=
   match out with
   | Dest b (Some d) =>
-      existsb (fun ep => String.eqb (ep_binding ep) b && answer_target_b ep d) (published m eid typ svc)
+      existsb (fun ep => String.eqb (ep_binding ep) b && pick_target_b svc ep d) (published m eid typ svc)
   | Dest _ None => false
   | Fail _ => true
   | _ => false
@@ -283,4 +296,48 @@ Fixpoint stores_seen (st : stores) (steps : list sstep) (obs : list sobs) : stor
   | SReload k m :: r, OReloaded ok :: r' => stores_seen (if ok then upd k m st else st) r r'
   | _ :: r, _ :: r' => stores_seen st r r'
   | _, _ => st
+  end.
+
+(* ---------------------------------------------------------------- the SERVED metadata (round 7) *)
+(* "The requester's metadata" / "the target provider's metadata" when several sources of the store carry an
+   EntityDescriptor for one entityID: the descriptor the store serves for that entityID (store[entity_id]: the first
+   source, in load order, that has the entity).  A same-entityID descriptor shadowed in a later source is not the
+   entity's metadata: an endpoint or role found only there must not be used (the request is to be refused).
+   Stated for the operations aimed at one named entity; `spec` (some source publishes it) stays as it is and
+   both are required of every observed outcome. *)
+Definition describes (e : string) (s : source) : bool := existsb (fun p : string * entity => String.eqb (fst p) e) s.
+
+Definition served (m : md) (e : string) : md :=
+  match find (describes e) m with Some s => [s] | None => m end.
+
+Definition target_of (o : op) : option string :=
+  match o with
+  | OpAnswer _ _ req _ _ => Some (requester req)
+  | OpPick _ _ _ _ _ entity_id => Some entity_id
+  | OpSso eid _ | OpNegotiate eid _ | OpAuthenticate eid _ => truthy eid
+  | OpLogout _ _ _ | OpDisco _ _ => None
+  end.
+
+Definition spec_served (m : md) (o : op) (out : outcome) : Prop :=
+  match target_of o with Some e => spec (served m e) o out | None => True end.
+
+Definition spec_served_b (m : md) (o : op) (out : outcome) : bool :=
+  match target_of o with Some e => spec_b (served m e) o out | None => true end.
+
+Fixpoint served_seq (st : stores) (steps : list sstep) (obs : list sobs) : Prop :=
+  match steps, obs with
+  | [], [] => True
+  | SOp k o :: r, OOut out :: r' => spec_served (st k) o out /\ served_seq st r r'
+  | SReload k m :: r, OReloaded ok :: r' => served_seq (if ok then upd k m st else st) r r'
+  | SReloadFail k :: r, OReloaded _ :: r' => served_seq st r r'
+  | _, _ => False
+  end.
+
+Fixpoint served_seq_b (st : stores) (steps : list sstep) (obs : list sobs) : bool :=
+  match steps, obs with
+  | [], [] => true
+  | SOp k o :: r, OOut out :: r' => spec_served_b (st k) o out && served_seq_b st r r'
+  | SReload k m :: r, OReloaded ok :: r' => served_seq_b (if ok then upd k m st else st) r r'
+  | SReloadFail k :: r, OReloaded _ :: r' => served_seq_b st r r'
+  | _, _ => false
   end.
